@@ -73,6 +73,7 @@ const OPTIONS: &[(&str, usize)] = &[
     ("strict_tokens_in_parser", 2),
     ("combined", 2),
     ("grammar_dir", 2),
+    ("grammar_symlink", 2),
 ];
 
 #[derive(Clone, PartialEq, Debug)]
@@ -230,7 +231,7 @@ impl Prop for C18 {
         serde_json::to_value(Case { ops, probe_one_call_stale_parser: false }).unwrap()
     }
     fn rule(&self) -> String {
-        "Histories of 1-8 operations (each possibly followed by Build, always ending in Build) over {EditGrammar(6 variants), EditLexer(6 variants, two lacking tokens some grammars use), Touch, SetOption(16 builder options incl. mod names, visibility, edition, recoverer, yacckind, serialisation format, error_on_conflicts, warnings flags, lexer flags, strictness about tokens missing from the lexer / from the parser, the flow: two builders in turn or the one-call CTLexerBuilder::lrpar_config, and grammar_path switched between two files of the same leaf name in different directories), BreakGrammar(4 kinds: syntax error, unknown rule, broken %grmtools section, unexpected conflicts), BreakLexer, Build}. Every Build runs the real CTParserBuilder/CTLexerBuilder in a process of its own; file times come from a logical clock. Oracle after every Build: successful => parser and lexer modules byte-identical (timestamp masked) to a clean build of the same sources/settings into an empty directory; nothing changed since the last successful build => regenerated()==false and files untouched; grammar text or a parser-relevant option changed => regenerated()==true; failed => no generated file from the earlier sources left at the output path. Evaluation = one Build step. Non-trivial: a change between two builds or a failing build after a successful one; distinct by hash(history).".into()
+        "Histories of 1-8 operations (each possibly followed by Build, always ending in Build) over {EditGrammar(6 variants), EditLexer(6 variants, two lacking tokens some grammars use), Touch, SetOption(17 builder options incl. mod names, visibility, edition, recoverer, yacckind, serialisation format, error_on_conflicts, warnings flags, lexer flags, strictness about tokens missing from the lexer / from the parser, the flow: two builders in turn or the one-call CTLexerBuilder::lrpar_config, grammar_path switched between two files of the same leaf name in different directories, and grammar_path naming the file through a symbolic link), BreakGrammar(4 kinds: syntax error, unknown rule, broken %grmtools section, unexpected conflicts), BreakLexer, Build}. Every Build runs the real CTParserBuilder/CTLexerBuilder in a process of its own; file times come from a logical clock. Oracle after every Build: successful => parser and lexer modules byte-identical (timestamp masked) to a clean build of the same sources/settings into an empty directory; nothing changed since the last successful build => regenerated()==false and files untouched; grammar text or a parser-relevant option changed => regenerated()==true; failed => no generated file from the earlier sources left at the output path. Evaluation = one Build step. Non-trivial: a change between two builds or a failing build after a successful one; distinct by hash(history).".into()
     }
     fn assumptions(&self) -> Vec<String> {
         vec!["a Touch (same bytes, newer time) may or may not regenerate".into()]
@@ -250,6 +251,8 @@ impl Prop for C18 {
         std::fs::create_dir_all(dir.join("a")).unwrap();
         std::fs::create_dir_all(dir.join("b")).unwrap();
         let gps = [dir.join("a").join("calc.y"), dir.join("b").join("calc.y")];
+        // ... and each can also be named through a symbolic link next to it
+        let gps_ln = [dir.join("a").join("calc_ln.y"), dir.join("b").join("calc_ln.y")];
         let mut gtexts = [GRAMMARS[0].to_string(), GRAMMARS[2].to_string()];
         let mut gdir = 0usize;
         let lp = dir.join("calc.l");
@@ -262,6 +265,12 @@ impl Prop for C18 {
         for k in 0..2 {
             std::fs::write(&gps[k], &gtexts[k]).unwrap();
             set_mtime(&gps[k], clock);
+            #[cfg(unix)]
+            {
+                let _ = std::os::unix::fs::symlink("calc.y", &gps_ln[k]);
+                let t = FileTime::from_unix_time(1_700_000_000 + clock, 0);
+                let _ = filetime::set_symlink_file_times(&gps_ln[k], t, t);
+            }
         }
         std::fs::write(&lp, &ltext).unwrap();
         set_mtime(&lp, clock);
@@ -319,7 +328,7 @@ impl Prop for C18 {
                 Op::Build => {
                     o.evals += 1;
                     let mut spec = CtSpec {
-                        grammar_path: gps[gdir].to_string_lossy().to_string(),
+                        grammar_path: if settings.get("grammar_symlink") == 1 && gps_ln[gdir].exists() { &gps_ln[gdir] } else { &gps[gdir] }.to_string_lossy().to_string(),
                         lexer_path: lp.to_string_lossy().to_string(),
                         parser_out: po.to_string_lossy().to_string(),
                         lexer_out: lo.to_string_lossy().to_string(),
